@@ -14,30 +14,35 @@ PROPS = {
         'not_covered': ['CSE, de-inlining, constant folding, fe_opt, strategy optimiser: bounded stand-in only (E3: 9 programs x argument sets x cl21/cl22/cl23 x -O off/on must agree on the returned value)', 'brief_path_selection_single call-site precondition', 'whole-pipeline equality of builds for all programs'],
     },
     'C03': {
-        'e3': ['compose_paths', 'path_optimizer'],
+        'e3_always': ['classic_meaning'],
+        'e3': ['compose_paths', 'path_optimizer', 'bigint_from_bytes', 'classic_meaning'],
         'units': ['paths', 'casts'],
         'decided': 'classic path arithmetic (compose_paths) and the bigint<->bytes casts the classic compiler stands on, against big-endian / two\'s-complement specs',
-        'not_covered': ['do_com_prog (CLVM-hosted compiler)', 'macro expansion', 'classic vs modern agreement'],
+        'not_covered': ['do_com_prog (the CLVM-hosted compiler), macro expansion, classic vs modern agreement: bounded stand-in only (E3: 8 hand-evaluated programs, classic plain and optimised)'],
     },
     'C04': {
-        'e3': ['compose_paths', 'path_optimizer'],
+        'e3_always': ['path_optimizer'],
+        'e3': ['compose_paths', 'path_optimizer', 'bigint_from_bytes'],
         'units': ['paths', 'casts'],
         'decided': 'path composition and number<->atom casts used by the classic optimiser, for paths of any width',
         'not_covered': ['constant_optimizer', 'cons_q_a_optimizer', 'children_optimizer', 'path_optimizer reading path atoms (finding F2 candidate)', 'fixpoint loop'],
     },
     'C08': {
+        'e3_always': ['atom_from_stream'],
         'e3': ['atom_from_stream'],
         'units': ['ser'],
         'decided': 'length-prefix encoder (atom_size_blob) equals the consensus prefix table; atom decoder (atom_from_stream, Stream::read, int_from_bytes, get_u32) returns exactly what the consensus decoder returns and rejects what it rejects',
         'not_covered': ['op-stack walker of sexp_from_stream / sexp_to_stream iterator (Box<dyn> stack)', 'byte-equality with clvmr rests on a transcribed spec'],
     },
     'C06': {
+        'e3_always': ['choose_path'],
         'e3': ['choose_path'],
         'units': ['clvmleaves'],
         'decided': 'the leaves the stepping evaluator re-implements itself: path lookup (choose_path) equals consensus traverse_path incl. path 0; program atoms are read as unsigned paths (path_from_u8, flatten_signed_int, lemma path_of_canonical_atom); truthiness (truthy) equals the consensus nil test in the current integer mode; atom_value; generate_argument_refs produces the paths 3*2^(k+j)-1 which select the j-th argument (lemma arg_ref_selects)',
         'not_covered': ['run_step / run as a whole (bisimulation with run_program)', 'apply_op delegation', 'translate_head + prim_map', 'eval_args', 'combine', 'that apply_op passes start = 5 and the environment (nil . args)', 'that run_step calls the verified leaves (call sites are unverified)'],
     },
     'C07': {
+        'e3_always': ['convert'],
         'e3': ['convert'],
         'units': ['convert', 'hash', 'sexpeq'],
         'decided': 'convert_from_clvm_rs and convert_to_clvm_rs preserve the CLVM value (tree_of) in both integer modes, by induction over the tree; modern and classic sha256tree both equal the CLVM tree hash of that value; SExp equality (equal_to / == / nilp) holds exactly when the CLVM encodings are identical in the current integer mode',
